@@ -952,3 +952,90 @@ Proof.
   intros [_ [HW _]] E. pose proof (w_taint s HW) as T. rewrite E in T. unfold taint_ok, all_fixes in T. cbn in T.
   destruct T as (A&B&C&D&F&G&I). repeat split; auto.
 Qed.
+
+(** * polls: what the result says about the queue *)
+Lemma try_recv_core_out s :
+  match snd (try_recv_core s) with
+  | TrVal v => q s = v :: q (fst (try_recv_core s)) /\ recvd (fst (try_recv_core s)) = recvd s ++ [v]
+  | TrEmpty => fst (try_recv_core s) = s /\ q s = [] /\ sc s <> 0
+  | TrDisc => fst (try_recv_core s) = s /\ q s = [] /\ sc s = 0
+  end.
+Proof.
+  unfold try_recv_core. destruct (q s) as [|v t] eqn:E.
+  - destruct (N.eqb_spec (sc s) 0); cbn; auto.
+  - cbn [fst snd]. destruct (same_wake_one_send (with_recvd (recvd s ++ [v]) (with_q t s))) as (_ & B & C).
+    rewrite B, C. st_simpl. auto.
+Qed.
+
+Lemma recv_try_out f w b x s :
+  let r := recv_try f w b x s in
+  match snd r with
+  | RReadyVal v => q s = v :: q (fst r) /\ recvd (fst r) = recvd s ++ [v]
+  | RReadyDisc => q (fst r) = q s /\ recvd (fst r) = recvd s /\ q s = [] /\ sc s = 0
+  | RPending => q (fst r) = q s /\ recvd (fst r) = recvd s /\ q s = [] /\ sc s <> 0
+  | _ => False
+  end.
+Proof.
+  cbv zeta. unfold recv_try. pose proof (try_recv_core_out s) as P.
+  destruct (try_recv_core s) as [s1 [v| |]]; cbn [fst snd] in *.
+  - destruct (same_finish f b x s1) as (_ & B1 & C1). cbv zeta in B1, C1. destruct P as [P1 P2].
+    rewrite B1, C1. auto.
+  - destruct P as (-> & P2 & P3). destruct (queued f (arq s)); cbn [fst snd]; st_simpl; auto.
+  - destruct P as (-> & P2 & P3). destruct (same_finish f b x s) as (_ & B1 & C1). cbv zeta in B1, C1.
+    rewrite B1, C1. auto.
+Qed.
+
+(* RecvFuture::poll: a value is the head of the queue; Disconnected means drained and senderless,
+   or the CLOSED-woken shortcut (F-08, tainting t08 exactly when the buffer was not empty) *)
+Lemma poll_recv_out f w x s :
+  let r := poll_recv f w x s in
+  match snd r with
+  | RReadyVal v => q s = v :: q (fst r) /\ recvd (fst r) = recvd s ++ [v]
+  | RReadyDisc => q (fst r) = q s /\ recvd (fst r) = recvd s /\
+                  ((q s = [] /\ sc s = 0) \/ (fx08 (fx s) = false /\ (q s <> [] -> t08 (tn (fst r)) = true)))
+  | RPending => q (fst r) = q s /\ recvd (fst r) = recvd s /\ q s = [] /\ sc s <> 0
+  | _ => False
+  end.
+Proof.
+  cbv zeta. unfold poll_recv.
+  assert (Hgen : forall b y s0, q s0 = q s -> recvd s0 = recvd s -> sc s0 = sc s ->
+            match snd (recv_try f w b y s0) with
+            | RReadyVal v => q s = v :: q (fst (recv_try f w b y s0)) /\ recvd (fst (recv_try f w b y s0)) = recvd s ++ [v]
+            | RReadyDisc => q (fst (recv_try f w b y s0)) = q s /\ recvd (fst (recv_try f w b y s0)) = recvd s /\
+                            ((q s = [] /\ sc s = 0) \/ (fx08 (fx s) = false /\ (q s <> [] -> t08 (tn (fst (recv_try f w b y s0))) = true)))
+            | RPending => q (fst (recv_try f w b y s0)) = q s /\ recvd (fst (recv_try f w b y s0)) = recvd s /\ q s = [] /\ sc s <> 0
+            | _ => False
+            end).
+  { intros b y s0 E1 E2 E3. pose proof (recv_try_out f w b y s0) as P. cbv zeta in P.
+    destruct (snd (recv_try f w b y s0)); try exact P; rewrite ?E1, ?E2, ?E3 in P; try exact P.
+    destruct P as (A & B & C & D). auto. }
+  destruct (f_reg x); [|apply Hgen; reflexivity].
+  destruct (f_state x); try (apply Hgen; reflexivity).
+  cbn [fx with_arq]. destruct (fx08 (fx s)) eqn:E8; [apply Hgen; reflexivity|].
+  cbn [fst snd]. st_simpl.
+  destruct (same_taint set_t08 (negb (lenq (with_arq (unlink f (arq s)) s) =? 0)) (with_arq (unlink f (arq s)) s)) as (_ & B & C).
+  rewrite B, C. st_simpl. split; [reflexivity|]. split; [reflexivity|]. right. split; [reflexivity|].
+  intros Hne. unfold taint. change (lenq (with_arq (unlink f (arq s)) s)) with (lenq s).
+  destruct (lenq s =? 0) eqn:E0; [apply (lenq0 s) in E0; contradiction|]. reflexivity.
+Qed.
+
+(* a poll on a closed handle: rejected if repaired, otherwise the F-03f event is recorded *)
+Lemma poll_closed_handle s f w x :
+  getF f s = Some x -> f_live x = true -> f_done x = false -> handle_closed (f_h x) s = true ->
+  (fx03f (fx s) = true ->
+     o_res (snd (step s (Poll f w))) = (if f_recv x then RReadyDisc else RReadyClosed)
+     /\ q (fst (step s (Poll f w))) = q s /\ recvd (fst (step s (Poll f w))) = recvd s) /\
+  (fx03f (fx s) = false -> t03f (tn (fst (step s (Poll f w)))) = true).
+Proof.
+  intros Hg Hl Hd Hc. unfold step. set (s1 := with_bad false (with_dk [] (with_wk [] s))).
+  change (getF f s1) with (getF f s). change (fx s1) with (fx s). rewrite Hg.
+  change (handle_closed (f_h x) s1) with (handle_closed (f_h x) s).
+  rewrite Hl, Hd, Hc. cbn [negb andb]. split; intros E; rewrite E.
+  - cbn [ret fst snd o_res]. destruct (same_cancel_reg f x s1) as (_ & B & C). st_simpl. rewrite B, C. auto.
+  - set (s2 := taint set_t03f true s1).
+    destruct (f_recv x).
+    + pose proof (cfg_poll_recv f w x s2) as (_ & _ & T). destruct (poll_recv f w x s2) as [s3 r]. cbn [fst ret] in *.
+      destruct T as (_ & T & _). destruct (t03f (tn s3)) eqn:E3; [reflexivity|]. specialize (T eq_refl). discriminate.
+    + pose proof (cfg_poll_send f w x s2) as (_ & _ & T). destruct (poll_send f w x s2) as [s3 r]. cbn [fst ret] in *.
+      destruct T as (_ & T & _). destruct (t03f (tn s3)) eqn:E3; [reflexivity|]. specialize (T eq_refl). discriminate.
+Qed.
